@@ -3,8 +3,8 @@
    positive, nat stay Coq datatypes. No Extract Constant of our own. *)
 Require Extraction.
 Require ExtrOcamlBasic.
-From Lospan Require Import Base.Bytes Base.AES Base.Outcome Gen.Consts Model.CMAC Model.FrameTypes Model.Crypto Model.MacCmd Model.Frame Model.Join Model.Store Model.Server Model.Gateway
-  Spec.RFC4493 Spec.MacLayout Spec.LoRaFrame Spec.RefDevice.
+From Lospan Require Import Base.Bytes Base.AES Base.Outcome Gen.Consts Model.CMAC Model.FrameTypes Model.Crypto Model.MacCmd Model.Frame Model.Join Model.Store Model.Server Model.Gateway Model.Router
+  Spec.RFC4493 Spec.MacLayout Spec.LoRaFrame Spec.RefDevice Spec.AbsRouter.
 Extraction Language OCaml.
 Extraction "lospan_model.ml"
   aes_enc aes_dec aescmac rfc4493 frame_crypt payload_crypt data_mic buffer_mic
@@ -15,4 +15,5 @@ Extraction "lospan_model.ml"
   rx_event submit encode_message encode_join_accept encode_join_request decode_join_accept nwkskey_from_nonces appskey_from_nonces
   dt_by_eui dt_by_devaddr dt_get dt_put key_empty max_payload
   gw_unmarshal gw_marshal gw_step encode_and_send key_present lookup_frequency authorised
+  rrun expected expected_closed
   ref_uplink ref_on_downlink ref_join_request ref_on_join_accept ref_mic ref_crypt mic4.
